@@ -22,6 +22,7 @@ func init() {
 			"(D5) the rollover transaction is rolled back only on an edge where an operation returned an error, and the retention handed to the rollover is derived from state that every writer of the retention limit updates. " +
 			"(D7) serialize hands out a snapshot: none of the slices/maps of the serialized unit is the live unit's own (the snapshot is encoded and summed without the unit's lock). " +
 			"(D1, cont.) once the hour id differs from the current unit's, flush always goes on to the rollover (nothing else short-circuits it). " +
+			"(D3, cont.) start-up pruning deletes a stored unit only when its id is strictly below the bound, and the bound handed in is current hour - retention + k with k <= 1: nothing inside the retention window is pruned. " +
 			"Not decided: hour/window arithmetic (id - limit, first id, gaps of many hours), 'daily never exceeds totals', top-N merging.",
 		RuleText:    "Lock dominance, value identity and referrer sets on SSA, provenance of the assembled window, increment counting.",
 		Assumptions: []string{"bbolt transactions are atomic", "encoding/gob round-trips unitDB"},
@@ -104,30 +105,116 @@ func runC09(c *Ctx) {
 	}
 	callers := callerFuncs(p, fdb)
 	r.Check(len(callers) == 1 && callers[0] == fl, "C09-D1", "flushDB-only-from-flush", p.FnPos(fdb), "flushDB is called only by flush (under the locks)", fmt.Sprintf("flushDB is called from %d places", len(callers)))
-	// the unit handed to flushDB is the current one read under the lock
-	for _, call := range core.CallsTo(fl, "(*stats.StatsCtx).flushDB") {
-		fr, _, ok := core.LoadedField(call.Arg(3))
-		r.Check(ok && fr.Type == "stats.StatsCtx" && fr.Field == "curr", "C09-D1", "rollover-persists-current-unit", p.InstrPos(call.Instr),
-			"the unit handed to the rollover is the current unit", "the rollover is handed something other than the current unit")
+	// What a call of flushUnitToDB persists: the serialisation of which unit, under whose id.  Either the caller
+	// serialises and hands over (serialisation, id) — then both come from one unit — or it hands over the unit and
+	// flushUnitToDB serialises it and names the bucket after its id.
+	type persisted struct {
+		unit ssa.Value
+		ser  *ssa.Call
+		ok   bool
 	}
-	// in flushDB: swap store, serialize(ptr), flushUnitToDB(udb, tx, ptr.id)
-	if len(fdb.Params) >= 4 {
-		ptr := fdb.Params[3]
+	isUnitPtr := func(t types.Type) bool { return core.TypeKey(t) == "*stats.unit" }
+	persistedUnit := func(call core.Call) (pu persisted) {
+		var serArg *ssa.Call
+		var idBase ssa.Value
+		for _, a := range call.Common.Args {
+			a = core.ResolveCellLoad(a)
+			if sc, _, isSer := core.CallResult(a); isSer && core.CalleeKey(sc.Common()) == kSerialize {
+				serArg = sc
+			}
+			if fr, base, ok := core.LoadedField(a); ok && fr.Type == "stats.unit" && fr.Field == "id" {
+				idBase = base
+			}
+		}
+		if serArg != nil && idBase != nil {
+			x := serArg.Common().Args[0]
+			if core.SameValue(x, idBase) || core.AccessPath(x) == core.AccessPath(idBase) {
+				return persisted{unit: x, ser: serArg, ok: true}
+			}
+			return pu
+		}
+		fu := p.Fn(kFlushUnit)
+		if fu == nil {
+			return pu
+		}
+		for i, prm := range fu.Params {
+			if !isUnitPtr(prm.Type()) || i >= len(call.Common.Args) {
+				continue
+			}
+			var ser *ssa.Call
+			for _, sc := range core.CallsTo(fu, kSerialize) {
+				if sc.Arg(0) == ssa.Value(prm) {
+					ser, _ = sc.Instr.(*ssa.Call)
+				}
+			}
+			named := false
+			for _, nc := range core.CallsTo(fu, "stats.idToUnitName") {
+				if fr, base, ok := core.LoadedField(nc.Arg(0)); ok && fr.Type == "stats.unit" && fr.Field == "id" && base == ssa.Value(prm) {
+					named = true
+				}
+			}
+			if ser != nil && named {
+				return persisted{unit: call.Common.Args[i], ser: ser, ok: true}
+			}
+		}
+		return pu
+	}
+	isCurr := func(v ssa.Value) bool {
+		fr, _, ok := core.LoadedField(core.ResolveCellLoad(v))
+		return ok && fr.Type == "stats.StatsCtx" && fr.Field == "curr"
+	}
+	// the unit the rollover works on: a parameter that flush feeds with the current unit, or the current unit read
+	// by the rollover itself before it swaps
+	var ptr ssa.Value
+	for i, prm := range fdb.Params {
+		if isUnitPtr(prm.Type()) && i > 0 {
+			ptr = prm
+			for _, call := range core.CallsTo(fl, "(*stats.StatsCtx).flushDB") {
+				r.Check(i < len(call.Common.Args) && isCurr(call.Common.Args[i]), "C09-D1", "rollover-persists-current-unit", p.InstrPos(call.Instr),
+					"the unit handed to the rollover is the current unit", "the rollover is handed something other than the current unit")
+			}
+		}
+	}
+	{
 		var ser *ssa.Call
-		for _, call := range core.CallsTo(fdb, kSerialize) {
-			if call.Arg(0) == ssa.Value(ptr) {
-				ser, _ = call.Instr.(*ssa.Call)
-			}
-		}
-		okPersist := false
+		okPersist, nPersist := true, 0
 		for _, call := range core.CallsTo(fdb, kFlushUnit) {
-			idOK := false
-			if fr, base, ok := core.LoadedField(call.Arg(3)); ok && fr.Type == "stats.unit" && fr.Field == "id" && base == ssa.Value(ptr) {
-				idOK = true
+			nPersist++
+			pu := persistedUnit(call)
+			if !pu.ok {
+				okPersist = false
+				continue
 			}
-			okPersist = ser != nil && call.Arg(1) == ssa.Value(ser) && idOK
+			ser = pu.ser
+			u := core.ResolveCellLoad(pu.unit)
+			switch {
+			case ptr != nil:
+				if !core.SameValue(u, ptr) {
+					okPersist = false
+				}
+			case isCurr(u):
+				// read in place: the read must come before the swap
+				ld, _ := u.(ssa.Instruction)
+				for _, b := range fdb.Blocks {
+					for _, in := range b.Instrs {
+						st, isSt := in.(*ssa.Store)
+						if !isSt {
+							continue
+						}
+						if fr, ok := core.FieldOfAddr(st.Addr); ok && fr.Type == "stats.StatsCtx" && fr.Field == "curr" {
+							before := ld != nil && (ld.Block() == b && instrIndex(ld) < instrIndex(in) || ld.Block() != b && ld.Block().Dominates(b))
+							if !before {
+								okPersist = false
+							}
+						}
+					}
+				}
+				r.Ok("C09-D1", "rollover-persists-current-unit", p.FnPos(fdb), "the rollover reads the current unit itself, before swapping it")
+			default:
+				okPersist = false
+			}
 		}
-		r.Check(okPersist, "C09-D1", "persist-swapped-unit-under-its-id", p.FnPos(fdb),
+		r.Check(okPersist && nPersist > 0, "C09-D1", "persist-swapped-unit-under-its-id", p.FnPos(fdb),
 			"the rollover persists the swapped-out unit's serialisation under that unit's id", "the rollover does not persist exactly the swapped-out unit's serialisation under its own id (counts land in the wrong hour or are lost)")
 		if ser != nil {
 			var extra []string
@@ -138,6 +225,11 @@ func runC09(c *Ctx) {
 					k := core.CalleeKey(y.Common())
 					if k != kFlushUnit {
 						extra = append(extra, k)
+					}
+				case *ssa.MakeInterface:
+					// handed to the encoder inside flushUnitToDB
+					if core.FuncKey(ser.Parent()) != kFlushUnit {
+						extra = append(extra, "converted to an interface")
 					}
 				case *ssa.FieldAddr:
 					// reading a field for logging is fine if not stored to
@@ -303,6 +395,86 @@ func runC09(c *Ctx) {
 			fmt.Sprintf("adding an entry does not increment the total (%d) and exactly its own result slot (%d) by one exactly once on every path", nTotal, nRes))
 	}
 
+	// start-up pruning keeps the retention window: a stored unit is deleted only if its id is strictly below the
+	// bound handed in, and the bound is at most the first hour of the window (now - limit + 1)
+	if du := p.Fn("(*stats.StatsCtx).deleteOldUnits"); du == nil {
+		r.Undecided("C09-D3", "deleteOldUnits", "-", "anchor not found")
+	} else {
+		// the bound: whatever the stored unit's id is compared with
+		var bounds []ssa.Value
+		okStrict, nDel := true, 0
+		for _, f := range core.WithAnon(du) {
+			isDel := core.IsCallTo(false, "(*go.etcd.io/bbolt.Tx).DeleteBucket")
+			g, n := core.CondEdges(f, func(at core.Atom) (bool, bool) {
+				// a bucket whose name is not a unit id at all is garbage and goes too
+				if at.Op == token.ILLEGAL && core.IsCallResult(core.ResolveCellLoad(at.Base), 1, "stats.unitNameToID") {
+					return true, false
+				}
+				if at.Other == nil || !core.IsCallResult(core.ResolveCellLoad(at.Base), 0, "stats.unitNameToID") {
+					return false, false
+				}
+				switch at.Op {
+				case token.GEQ: // id >= bound: kept
+					bounds = append(bounds, core.ResolveCellLoad(at.Other))
+					return true, false
+				case token.LSS: // id < bound: may be deleted
+					bounds = append(bounds, core.ResolveCellLoad(at.Other))
+					return true, true
+				}
+				return false, false
+			})
+			off, ns := core.UnguardedSinksLocal(f, isDel, g)
+			nDel += ns
+			if ns > 0 && (n == 0 || len(off) > 0) {
+				okStrict = false
+			}
+		}
+		r.Check(okStrict && nDel > 0 && len(bounds) > 0, "C09-D3", "prune-strictly-below-bound", p.FnPos(du),
+			"a stored unit is deleted at start-up only when its id is strictly below the bound",
+			"start-up pruning can delete the unit whose id equals the bound (or units not compared with it): an hour that is still inside the retention window is lost on restart")
+		// bound = current hour - retention hours + k with k <= 1, computed by the caller or in place
+		formOK := func(v ssa.Value) bool {
+			bo, isBO := v.(*ssa.BinOp)
+			if !isBO {
+				return false
+			}
+			if c, isC := core.ConstInt(bo.Y); isC && (bo.Op == token.SUB || bo.Op == token.ADD) {
+				k := c
+				if bo.Op == token.SUB {
+					k = -c
+				}
+				inner, isIn := bo.X.(*ssa.BinOp)
+				return isIn && inner.Op == token.SUB && k <= 1
+			}
+			return bo.Op == token.SUB
+		}
+		nForms := 0
+		seenB := map[ssa.Value]bool{}
+		for _, bnd := range bounds {
+			if seenB[bnd] {
+				continue
+			}
+			seenB[bnd] = true
+			if prm, isPrm := bnd.(*ssa.Parameter); isPrm {
+				for _, a := range core.ArgsOfParam(prm) {
+					nForms++
+					pos := p.FnPos(du)
+					if ai, isI := a.(ssa.Instruction); isI {
+						pos = p.InstrPos(ai)
+					}
+					r.Check(formOK(a), "C09-D3", fmt.Sprintf("prune-bound-not-inside-window#%d", nForms), pos,
+						"the pruning bound is (current hour - retention hours + k) with k <= 1: nothing inside the window is pruned",
+						"the pruning bound handed to deleteOldUnits is not of the form current hour - retention + k (k <= 1): hours inside the retention window can be deleted at start-up")
+				}
+				continue
+			}
+			nForms++
+			r.Check(formOK(bnd), "C09-D3", fmt.Sprintf("prune-bound-not-inside-window#%d", nForms), p.FnPos(du),
+				"the pruning bound is (current hour - retention hours + k) with k <= 1: nothing inside the window is pruned",
+				"the pruning bound is not of the form current hour - retention + k (k <= 1): hours inside the retention window can be deleted at start-up")
+		}
+		r.Floor("C09-D3", "prune-call-sites", nForms, 1)
+	}
 	// D3
 	cl := p.Fn("(*stats.StatsCtx).Close")
 	if cl == nil {
@@ -310,15 +482,8 @@ func runC09(c *Ctx) {
 	} else {
 		okC := false
 		for _, call := range core.CallsTo(cl, kFlushUnit) {
-			ser, _, isSer := core.CallResult(call.Arg(1))
-			if isSer && core.CalleeKey(ser.Common()) == kSerialize {
-				f1, _, ok1 := core.LoadedField(ser.Common().Args[0])
-				f2, b2, ok2 := core.LoadedField(call.Arg(3))
-				if ok1 && f1.Field == "curr" && ok2 && f2.Field == "id" {
-					if f3, _, ok3 := core.LoadedField(b2); ok3 && f3.Field == "curr" {
-						okC = true
-					}
-				}
+			if pu := persistedUnit(call); pu.ok && isCurr(pu.unit) {
+				okC = true
 			}
 		}
 		r.Check(okC, "C09-D3", "close-persists-current-unit", p.FnPos(cl), "a clean close persists the current unit's serialisation under its id", "a clean close does not persist the current unit's serialisation under its own id (counts of the last hour are lost on restart)")
